@@ -41,6 +41,8 @@ pub enum SeqMode {
 #[derive(Clone, Debug, Serialize, Deserialize)]
 pub enum Op {
     Select(Vec<CtlHeader>, SeqMode),
+    /// a SELECT whose object headers parse but are not control objects (rejected with an IIN2 error)
+    BadSelect(SeqMode),
     Operate(OpVariant, SeqMode),
     DirectOperate(Vec<CtlHeader>),
     Read,
@@ -154,6 +156,7 @@ impl Prop for Sbo {
         ];
         let op = prop_oneof![
             6 => (headers.clone(), seqm.clone()).prop_map(|(h, s)| Op::Select(h, s)),
+            1 => seqm.clone().prop_map(Op::BadSelect),
             8 => (variant, seqm).prop_map(|(v, s)| Op::Operate(v, s)),
             1 => headers.prop_map(Op::DirectOperate),
             1 => Just(Op::Read),
@@ -200,6 +203,8 @@ async fn run_case(case: &Case) -> CaseOut {
     let mut seq: u8 = 0;
     let mut last_select_headers: Option<Vec<CtlHeader>> = None;
     let mut last_fragment: Option<Vec<u8>> = None;
+    // control headers of `last_fragment` when it is a SELECT of control objects
+    let mut last_fragment_select: Option<Vec<CtlHeader>> = None;
 
     macro_rules! disarm {
         ($why:expr) => {
@@ -239,6 +244,7 @@ async fn run_case(case: &Case) -> CaseOut {
                 rig.settle().await;
                 last_select_headers = Some(hs.clone());
                 last_fragment = Some(frag.clone());
+                last_fragment_select = Some(hs.clone());
                 let now = rig.now_ms();
                 if is_repeat_of_armed {
                     out.label("select_retransmitted");
@@ -265,6 +271,25 @@ async fn run_case(case: &Case) -> CaseOut {
                 if log.iter().any(|(_, cb)| matches!(cb, Cb::Operate(..))) {
                     out.fail(Fail::new("select-actuated", "a SELECT request reached ControlHandler::operate"));
                 }
+            }
+            Op::BadSelect(sm) => {
+                let s = match sm {
+                    SeqMode::Next => {
+                        seq = (seq + 1) & 0x0F;
+                        seq
+                    }
+                    SeqMode::Arbitrary(x) => {
+                        seq = x & 0x0F;
+                        seq
+                    }
+                };
+                let frag = Fragment::request(s, func::SELECT, ra::h_all(1, 0)).encode();
+                rig.send_fragment(&frag);
+                rig.settle().await;
+                last_fragment = Some(frag);
+                last_fragment_select = None;
+                out.label("rejected_select");
+                disarm!("intervening");
             }
             Op::Operate(variant, sm) => {
                 let base = last_select_headers.clone().unwrap_or_else(|| vec![CtlHeader { kind: 0, two_byte: false, objs: vec![(0, 0)] }]);
@@ -473,9 +498,9 @@ async fn run_case(case: &Case) -> CaseOut {
                     if is_repeat_of_armed {
                         out.label("select_retransmitted");
                         armed.as_mut().unwrap().t_last = rig.now_ms();
-                    } else if f.len() >= 2 && f[1] == func::SELECT && f[0] & 0xC0 == 0xC0 {
+                    } else if f.len() >= 2 && f[1] == func::SELECT && f[0] & 0xC0 == 0xC0 && last_fragment_select.as_ref().map(|h| encode_headers(h) == f[2..]).unwrap_or(false) {
                         // a SELECT received again after other (non-request) fragments is a SELECT in its own right
-                        let hs = last_select_headers.clone().unwrap_or_default();
+                        let hs = last_fragment_select.clone().unwrap_or_default();
                         let idx = indices(&hs);
                         let all_ok = idx.iter().all(|i| status_of(*i) == 0) && case.max_controls.map(|m| idx.len() <= m as usize).unwrap_or(true);
                         disarm!("intervening");
